@@ -15,8 +15,9 @@ def encStep : Step → SExp
   | .openGlyphSet => .atom "open"
   | .writeGlyph _ => .atom "glyph"
   | .writeContents => .atom "contents"
-  | .removeDest _ => .atom "remove"
+  | .moveAside _ => .atom "aside"
   | .moveTemp _ => .atom "move"
+  | .dropAside => .atom "drop"
 
 def driverStep (u : Unit) (line : SExp) : Unit × SExp :=
   match line with
@@ -26,7 +27,9 @@ def driverStep (u : Unit) (line : SExp) : Unit × SExp :=
       let f : Font := { comps := fl.map (fun _ => 1), compDirty := fl, glyphs := (List.range n).map (fun i => (i, i)),
                         glyphDirty := d, path := 1, format := 3, dirty := true }
       let m : Mode := if mode = "inplace" then .inPlace else if mode = "new" then .saveAsNew 2 else .saveAsOver 2
-      (u, .list ((plan f m).map encStep))
+      -- dropping what was put aside removes a temporary directory, ignoring errors: not a mutating call the
+      -- harness can see fail, so it is not part of the compared plan
+      (u, .list (((plan f m).filter (· ≠ .dropAside)).map encStep))
     | _, _, _ => (u, .atom "bad-op")
   | _ => (u, .atom "bad-op")
 
